@@ -438,6 +438,55 @@ func c02(r *Run) {
 			}
 		}
 	}
+	// ... and the Peek cache backs Peek results only: a method that hands Peek's result on as its own (Until/Next rewritten over
+	// Peek+Skip) gives the caller bytes that the next multi-node Peek refills before Release
+	{
+		peek := bufMethod(w, "Peek")
+		n := 0
+		for _, fn := range w.Funcs {
+			if fn == peek || fn.Signature.Recv() == nil || namedTypeName(fn.Signature.Recv().Type()) != "UnsafeLinkBuffer" {
+				continue
+			}
+			for _, ins := range allIns(fn) {
+				ret, ok := ins.(*ssa.Return)
+				if !ok || len(ret.Results) == 0 {
+					continue
+				}
+				for _, v := range phiLeaves(seeThroughCell(ret.Results[0])) {
+					x := v
+					if sl, isSl := x.(*ssa.Slice); isSl {
+						x = sl.X
+					}
+					if e, isE := x.(*ssa.Extract); isE {
+						x = e.Tuple
+					}
+					if c, isC := x.(*ssa.Call); isC && c.Call.StaticCallee() == peek {
+						n++
+						r.ob("C02.R6:peek-result-is-not-handed-on:"+fn.Name(), "no other reader method returns the result of Peek as its own: the Peek cache is refilled by the next multi-node Peek, so bytes that must stay valid until Release (Next, Until, ReadBinary ...) never live there", fn, ins, false, "returns Peek()'s result", true)
+					}
+				}
+			}
+		}
+		if n == 0 {
+			r.ob("C02.R6:peek-result-is-not-handed-on", "no other reader method returns the result of Peek as its own", peek, nil, true, "no method returns Peek()'s result", false)
+		}
+	}
+	// Append (WriteBuffer) closes the donor from its head up to its read cursor: the donor's read cursor is not advanced there
+	// (a node a zero-copy Next has just consumed exactly is still the read node; moved past, Append would free it under the caller)
+	{
+		wb := bufMethod(w, "WriteBuffer")
+		var bad ssa.Instruction
+		forEachIns(wb, func(i ssa.Instruction) {
+			st, ok := i.(*ssa.Store)
+			if !ok || !isStoreToField(i, "UnsafeLinkBuffer", "read") {
+				return
+			}
+			if !isNilConst(st.Val) {
+				bad = i
+			}
+		})
+		r.ob("C02.R2:append-keeps-the-donors-read-cursor", "Append never advances a read cursor (it only clears the donor's when it closes it): the nodes it releases are exactly the ones the donor had already left behind", wb, bad, bad == nil, "only read = nil in WriteBuffer", true)
+	}
 }
 
 func fieldTail(path string) string {
